@@ -39,7 +39,7 @@ def main():
     nb = len(bodies)
     bodies = bodies + singles
     colls = []
-    for p in (["m2"], ["m2b"], ["m3"], ["m3b"], ["m4"], ["m5"], ["m8"], ["ok3"], ["mm"], ["ms"], ["mi"], ["mix"], ["keys"], ["l", "0"], ["l", "1"], ["mm", "r2"], ["im3"], ["nk3"], ["ifk"], ["nat"], ["m3e"]):
+    for p in (["m2"], ["m2b"], ["m3"], ["m3b"], ["m4"], ["m5"], ["m8"], ["ok3"], ["mm"], ["ms"], ["mi"], ["mix"], ["keys"], ["l", "0"], ["l", "1"], ["mm", "r2"], ["im3"], ["nk3"], ["ifk"], ["nat"], ["m3e"], ["pm3"], ["pm4"], ["pl"], ["hp", "M"], ["hp", "N"], ["hp", "V"]):
         for op in ("any", "all"):
             for mode, n1, n2 in (("default", "k", ""), ("index", "k", ""), ("value", "", "v"), ("both", "k", "v")):
                 colls.append({"op": op, "sel": {"ty": "bexpr", "path": p}, "mode": mode, "n1": n1, "n2": n2})
@@ -69,9 +69,9 @@ def main():
         chk.violation({"law": "repetitions of one Execute agree", **v})
     chk.cov["distinct_nontrivial"] = mixed + fr["cases"]
     chk.notes["repetitions_per_case"] = reps
-    chk.notes["rule"] = ("quantifier shells (any/all x 4 binding modes) over %d map-shaped paths (2..8 entries, nested, inside lists, int / named / interface keys) x %d bodies and membership tests, each "
+    chk.notes["rule"] = ("quantifier shells (any/all x 4 binding modes) over %d map-shaped paths (2..8 entries, nested, inside lists, int / named / interface keys, held by pointer) x %d bodies and membership tests, each "
                          "evaluated %d times on one evaluator; %d Execute cases over maps repeated likewise; with two or more visiting orders that "
-                         "differ in outcome, %d independent orders agree with probability < 2^-%d" % (21, len(bodies), reps, fr["cases"], reps, reps - 1))
+                         "differ in outcome, %d independent orders agree with probability < 2^-%d" % (27, len(bodies), reps, fr["cases"], reps, reps - 1))
     return chk.finish()
 
 
